@@ -349,6 +349,27 @@ pub fn ser(ty: &str, v: &Value, o: &SerOpts) -> Result<String, String> {
     })
 }
 
+/// The serializer's other entry points, writing into an `io::Write` sink that accepts at most `max` bytes per call:
+/// (`to_string`, `to_utf8_io_writer`, `to_string_with_root(root)`, `Writer::write_serializable(root)`), each Ok(bytes) | Err.
+pub fn ser_entry_points(ty: &str, v: &Value, root: &str, max: usize) -> [Result<Vec<u8>, String>; 4] {
+    with_type!(ty, T, {
+        let val: T = match serde_json::from_value(v.clone()) {
+            Ok(x) => x,
+            Err(e) => {
+                let e = format!("json: {e}");
+                return [Err(e.clone()), Err(e.clone()), Err(e.clone()), Err(e)];
+            }
+        };
+        let a = quick_xml::se::to_string(&val).map(String::into_bytes).map_err(|e| format!("se: {e}"));
+        let mut sink = crate::env::ShortSink::new(max);
+        let b = quick_xml::se::to_utf8_io_writer(&mut sink, &val).map(|_| sink.out.clone()).map_err(|e| format!("se: {e}"));
+        let c = quick_xml::se::to_string_with_root(root, &val).map(String::into_bytes).map_err(|e| format!("se: {e}"));
+        let mut w = quick_xml::Writer::new(crate::env::ShortSink::new(max));
+        let d = w.write_serializable(root, &val).map_err(|e| format!("se: {e}")).map(|_| w.into_inner().out);
+        [a, b, c, d]
+    })
+}
+
 /// Deserialize with from_str; Ok(value as JSON) | Err(error text)
 pub fn de_str(ty: &str, xml: &str) -> Result<Value, String> {
     with_type!(ty, T, {
@@ -380,7 +401,9 @@ pub fn de_reader(ty: &str, xml: &[u8], cuts: &[usize]) -> Result<Value, String> 
 pub fn de_limit(ty: &str, xml: &str, limit: Option<usize>) -> Result<Value, String> {
     with_type!(ty, T, {
         let mut de = quick_xml::de::Deserializer::from_str(xml);
+        #[cfg(feature = "ol")]
         de.event_buffer_size(limit.and_then(std::num::NonZeroUsize::new));
+        let _ = limit;
         let val: T = T::deserialize(&mut de).map_err(|e| format!("{e:?}"))?;
         Ok(serde_json::to_value(&val).unwrap())
     })
